@@ -38,7 +38,8 @@ ASSUMPTIONS = [
     'last written decimal in the serialised unit (otherwise the text denotes '
     'a non-positive size): sizes are raised to that minimum by construction',
     'text contains no braces or newlines (DS9 cannot escape them)',
-    'sky frames use their default equinox (DS9 cannot name others)',
+    'FK5 coordinates at another equinox (J1975) are generated too: DS9 cannot '
+    'name it, so what must come back is the same place on the sky under fk5',
 ]
 
 DS9_FRAMES = ['icrs', 'fk5', 'fk4', 'galactic', 'ecliptic']
@@ -85,7 +86,8 @@ def enforce_precondition(rs, p):
 def region_strategy():
     sz = G.sizes(1e-3, 1e4)
     pix = st.one_of(G.simple_pixel(sz, meta=False))
-    sky = GS.simple_sky(GS.angsizes(1e-3, 3.6e4), frames=DS9_FRAMES, meta=False)
+    sky = GS.simple_sky(GS.angsizes(1e-3, 3.6e4),
+                        frames=DS9_FRAMES + ['fk5_j1975'], meta=False)
     return st.one_of(pix, sky, sky)
 
 
@@ -173,6 +175,15 @@ def compare_geometry(ctx, tag, A, B, p):
                       f'{tag} | {par} not within half a unit of the precision',
                       lambda: f'p={p}: {(xa, ya)} -> {(xb, yb)}')
         elif isinstance(va, SkyCoord):
+            if not va.frame.is_equivalent_frame(vb.frame):
+                # same frame name, another equinox: DS9's keyword stands for
+                # the default one - what matters is the place on the sky
+                # (frame attributes given explicitly: transform_to lets the
+                # coordinate's own attributes win over defaults)
+                fb = vb.frame
+                va = va.transform_to(type(fb)(**{a: getattr(fb, a)
+                                                 for a in fb.frame_attributes}))
+                ctx.label('equinox:non-default')
             la, ba = np.asarray(va.spherical.lon.deg), np.asarray(va.spherical.lat.deg)
             lb, bb = np.asarray(vb.spherical.lon.deg), np.asarray(vb.spherical.lat.deg)
             ctx.check(la.shape == lb.shape, f'{tag} | {par} changes length')
